@@ -9,6 +9,7 @@ import Mahotas.Proofs.C14Families
 import Mahotas.Proofs.C14Hitmiss
 import Mahotas.Proofs.C14Centre
 import Mahotas.Proofs.C14RegSpec
+import Mahotas.Proofs.C14HolesSpec
 import Mahotas.Proofs.C01Dispatch
 open Mahotas Mahotas.C14
 
@@ -461,3 +462,31 @@ example : C01.getStructuringElem dtBool 2 .none = .ok ([3, 3], #[0, 1, 0, 1, 1, 
     C01.getStructuringElem (dtU 8) 2 (.int 8) = .ok ([3, 3], #[1, 1, 1, 1, 1, 1, 1, 1, 1]) ∧
     [256, 0, -1].map (C01.castTo (dtU 8)) = [0, 0, 255] :=
   ⟨by rfl, by rfl, by decide⟩
+
+/-- **the executable specification `closeHolesSpec` = complement of `BorderConn`.** The driver prints, next to
+the model of `close_holes` (border seeding + stack flood), the array `closeHolesSpec`: start from the background
+pixels of the border and repeat `size` times "a background pixel is reached when a neighbour (either direction)
+is reached"; the result is the complement. For every image of every rank and shape and every symmetric
+neighbourhood: (1) `size` rounds reach the fixed point (a monotone iteration on `size` flags:
+`iter_mono_fixed`), (2) the result is true at `q` exactly when `q` is not a background pixel connected to the
+border, hence (3) with `C14_close_holes_eq_spec` the two arrays the driver prints for `holes` agree at every
+pixel — by two different algorithms. -/
+theorem C14_holesspec_eq_borderconn (ref : Img Int) (nb : List (List Int)) (hn : SymNb ref nb) :
+    reachStep ref nb (reachFinal ref nb) = reachFinal ref nb ∧
+    (∀ q, inside ref.shape q = true →
+      ((closeHolesSpec ref nb).getD (ravelI ref.shape q) false = true ↔ ¬ BorderConn ref nb q)) ∧
+    (ref.data.size = shapeSize ref.shape → ∀ q, inside ref.shape q = true →
+      (closeHoles ref nb).getD (ravelI ref.shape q) false =
+        (closeHolesSpec ref nb).getD (ravelI ref.shape q) false) := by
+  refine ⟨reachFinal_fixed, fun q hq => closeHolesSpec_iff hn q hq, fun hwf q hq => ?_⟩
+  have h1 := closeHoles_spec ref nb hwf q hq
+  have h2 := closeHolesSpec_iff hn q hq
+  cases ha : (closeHoles ref nb).getD (ravelI ref.shape q) false <;>
+    cases hb : (closeHolesSpec ref nb).getD (ravelI ref.shape q) false <;> simp_all
+
+/-- a 3×3 ring with the 3×3 cross: symmetric neighbourhood, the hole is closed by the specification as well -/
+example :
+    let A : Img Int := { shape := [3, 3], data := #[1, 1, 1, 1, 0, 1, 1, 1, 1] }
+    SymNb A (neighbours [3, 3] #[0, 1, 0, 1, 1, 1, 0, 1, 0]) ∧
+    (reachFinal A (neighbours [3, 3] #[0, 1, 0, 1, 1, 1, 0, 1, 0])).toList = List.replicate 9 false :=
+  ⟨⟨by decide, by decide⟩, by decide⟩
